@@ -94,10 +94,12 @@ TEXT = {
             "Coq proof on the store model + correspondence", "5 (C14)"),
     "C15": ("Theorems: indexing a contents tree that represents ns returns the i-th represented node for every i (CRep_get, "
             "all depths, any zero summaries); len() / [i] of list views present the represented elements in order; == is "
-            "equality of hash-tree-roots; equal views have equal hashes. The three stack iterators are modelled literally "
-            "as machines and compared with indexing / slices / iteration / to_obj on lengths sweeping every subtree "
-            "boundary (correspondence + model-free agreement oracle); their invariant proof is not done.",
-            "Coq proof (CRep_get) + literal iterator model + correspondence", "5 (C15)"),
+            "equality of hash-tree-roots; equal views have equal hashes. All three stack iterators (NodeIter, PackedIter, "
+            "BitfieldIter), modelled literally as machines, are PROVED to yield exactly what indexing yields, in order, for "
+            "every tree, depth and count (binary-increment stack invariant, intra-chunk counters). Python iterators vs. "
+            "the machines, slices, to_obj: correspondence on lengths sweeping every subtree boundary + model-free "
+            "agreement oracle.",
+            "Coq proof (CRep_get, iterator invariants) + correspondence", "5 (C15)"),
     "C16": ("Theorems: hex text round trip; JSON dump/load idempotent on exported objects; integers of every width and "
             "booleans export to the documented shape and import back to the same backing, also through JSON. Composite "
             "kinds: correspondence (exact tagged shape, from_obj, JSON, alternative spellings; all roots = original).",
